@@ -495,10 +495,12 @@ def m_len(interp, x):
         return x.length
     if hasattr(x, "sym_len"):
         return x.sym_len()
-    from .interp import ProgExc
+    from .interp import ProgExc, _is_model_value
     try:
         return len(x)
     except TypeError:
+        if _is_model_value(x):
+            raise Unsupported("len() of model %s" % type(x).__name__)
         raise ProgExc(TypeError, "len")
 
 
@@ -848,6 +850,17 @@ class SymStr(object):
 
     def hashv(self):
         return sym._lift(z3.Function("strhash", z3.IntSort(), z3.IntSort())(_z(self.ident)))
+
+    def sym_len(self):
+        """len(s): the number of code points, a function of the text with charlen <= utf8len <= 4*charlen"""
+        trusted("str: len(s) counts code points; 0 <= len(s) <= len(s.encode('utf-8')) <= 4*len(s)")
+        x = _z(self.ident)
+        cl = z3.Function("charlen", z3.IntSort(), z3.IntSort())(x)
+        ul = z3.Function("utf8len", z3.IntSort(), z3.IntSort())(x)
+        st = sym.get_state()
+        if st is not None:
+            st.add_fact(z3.And(cl >= 0, cl <= ul, ul <= 4 * cl))
+        return sym._lift(cl)
 
     def __add__(self, o):
         if isinstance(o, (str, SymStr, CatStr)):
